@@ -141,10 +141,14 @@ structure St where
   reassigned : List Nat := []
   raced : List Nat := []
   tainted : List Nat := []
+  v6 : Bool := false
 
 def step (st : St) (toks : List String) (impl : String) : St × LineResult :=
   match toks with
   | ["new"] => ({ model := some SubMgr.init, mon := {} }, { modelObs := "ok" })
+  -- the IPv6 halves of AssignAddress / TerminateSession: the same model (one address per session); the one difference
+  -- is that a failed IPv6 allocation is not fatal to AssignAddress
+  | ["new", "v6"] => ({ model := some SubMgr.init, mon := {}, v6 := true }, { modelObs := "ok" })
   | _ =>
     match st.model, parseOp toks with
     | some m, some op =>
@@ -183,7 +187,7 @@ where
       | some a => if st1.tainted.contains a then (if st1.raced.isEmpty then "KF-submgr-reassign-leak" else "KF-submgr-assign-race") else "none"
       | none => "none"
     ({ st1 with model := some m', mon := mon' },
-     { modelObs := showRes op r m', viols := vs.map fun v => (v.name, clause v, v.detail) })
+     { modelObs := showRes op (if st.v6 && r == .exhausted then .ok else r) m', viols := vs.map fun v => (v.name, clause v, v.detail) })
 
 def component : Component := { σ := St, init := {}, step := step }
 
